@@ -51,7 +51,10 @@ def main():
                     continue
                 dst = os.path.join(wt, tgt)
                 shutil.copyfile(os.path.join(seed, d), dst)
-                rc, out = sh(["go", "test", "-vet=off", "-count=1", "-run", ".", "./" + os.path.dirname(tgt)], wt)
+                # only the demonstration's own tests: the package's other tests may leave state behind that hides it
+                names = re.findall(r"^func (Test\w+)\(", open(os.path.join(seed, d)).read(), re.M)
+                rc, out = sh(["go", "test", "-vet=off", "-count=1", "-run", "^(" + "|".join(names) + ")$" if names else ".",
+                              "./" + os.path.dirname(tgt)], wt)
                 os.remove(dst)
                 results.append((d, rc, out[-600:]))
             return results
